@@ -122,6 +122,7 @@ class Frame:
         self.ret_cell = ret_cell
         self.ret_to = ret_to  # block name in the caller to continue at
         self.unroll = {}
+        self.post = None      # optional function applied to the return value (used by combinator contracts)
 
 
 class Executor:
@@ -301,6 +302,9 @@ class Executor:
             return o
         if text in self.named_consts:
             return copy.deepcopy(self.named_consts[text])
+        m = re.match(r"^(.*)::(\w+)::promoted\[(\d+)\]$", text)
+        if m:
+            return self.eval_const_item(st, f"::{m.group(2)}::promoted[{m.group(3)}]")
         m = re.match(r"^(.+)::\{constant#\d+\}$", text)
         # anything else: an opaque constant (function item, ZST, associated const we do not model)
         if re.match(r"^[\w:<>{}@ ,.\[\]'&#*()\-/]+$", text):
@@ -333,6 +337,8 @@ class Executor:
         if m and not text.startswith("&&"):
             cell, _ = self.resolve(st, fr, parse_place(m.group(1)))
             return Ref(cell)
+        if text.startswith("no_retag "):
+            text = text[len("no_retag "):]
         for kind in ("move ", "copy ", "const "):
             if text.startswith(kind) and find_top(text, " as ") < 0:
                 return self.operand(st, fr, parse_operand(text))
@@ -377,7 +383,8 @@ class Executor:
                 o.fields[(None, i)] = Cell(self.operand(st, fr, parse_operand(p.rstrip(","))))
             return o
         if text.startswith("["):
-            raise Unsupported("array rvalue: " + text)
+            # arrays only occur as format-argument lists in the analysed set: opaque
+            return Obj(dest_ty)
         # aggregates: Path::Variant(ops) | Path::Variant { f: op } | Path { f: op } | Path::Variant | {closure@..} { .. }
         return self.aggregate(st, fr, text, dest_ty)
 
@@ -468,6 +475,11 @@ class Executor:
         dest_ty = None
         if dest is not None:
             dest_ty = self.place_type(fr, dest)
+        if key in ("Option::map", "Result::map_err", "Result::map", "Poll::map_err", "Poll::map", "Option::and_then",
+                   "Option::unwrap_or_else", "Result::unwrap_or_else", "Option::map_or", "Option::ok_or_else"):
+            r = self.combinator(st, fr, dest, key, argv, dest_ty, ret)
+            if r is not None:
+                return r
         for rx, target in self.inline:
             if re.search(rx, key):
                 fn = self.find_fn(target)
@@ -504,6 +516,102 @@ class Executor:
                     res.append(s2)
                 return res
         raise Inconclusive(f"unmodelled callee: {key}   (raw: {callee})")
+
+    def combinator(self, st, fr, dest, key, argv, dest_ty, ret):
+        """Option::map, Result::map_err, Poll<Result>::map_err ... with a closure (or function item) argument: fork on
+        the variant, run the closure's MIR body where it applies and re-wrap its result."""
+        x = argv[0]
+        f = argv[1]
+        if not isinstance(x, Obj):
+            raise Unsupported(f"{key} on {x!r}")
+        head, meth = key.split("::")
+        table = {("Option", "map"): ("Some", "None"), ("Result", "map_err"): ("Err", "Ok"), ("Result", "map"): ("Ok", "Err")}
+        if (head, meth) not in table:
+            if head == "Poll" and meth == "map_err":
+                return self.poll_map_err(st, fr, dest, x, f, dest_ty, ret)
+            raise Inconclusive("combinator not modelled: " + key)
+        hit, miss = table[(head, meth)]
+        out = []
+        c_hit = self.variant_is(st, x, hit)
+        c_miss = self.variant_is(st, x, miss)
+        from .contracts import payload
+        if self.feasible(st, c_miss):
+            s2 = st.clone()
+            s2.pc.append(c_miss)
+            f2 = s2.frames[-1]
+            x2 = self.operand_values_again(s2, f2)
+            # rebuild the untouched variant with the destination type
+            xx = self.reread_arg0(s2, f2)
+            if miss == "None":
+                val = self.make_enum(dest_ty, "None")
+            else:
+                val = self.make_enum(dest_ty, miss, [payload(self, xx, miss)])
+            self.write_place(s2, f2, dest, val)
+            self.enter(s2, f2, ret)
+            out.append(s2)
+        if self.feasible(st, c_hit):
+            st.pc.append(c_hit)
+            inner = payload(self, x, hit)
+            cell, _ = self.resolve(st, fr, dest, for_write=True)
+            wrap = lambda ex, s, v, hit=hit, dest_ty=dest_ty: ex.make_enum(dest_ty, hit, [v])
+            if isinstance(f, FnItem) and "closure@" not in f.name:
+                # a plain function item (e.g. `<VarInt as From<T>>::from`): apply its (non-forking) contract
+                from .contracts import payload_type
+                fkey = normalise_callee(f.name)
+                inner_ty = payload_type(dest_ty, hit) or "?"
+                for rx, fnc in self.contracts:
+                    if re.search(rx, fkey):
+                        cases = fnc(self, st, fkey, [inner], inner_ty, f.name)
+                        if len(cases) != 1 or cases[0].cond is not None:
+                            raise Inconclusive(f"{key} with forking function item {f.name}")
+                        v = cases[0].apply(self, st, [inner])
+                        self.write_place(st, fr, dest, self.make_enum(dest_ty, hit, [v]))
+                        self.enter(st, fr, ret)
+                        out.append(st)
+                        return out
+                raise Inconclusive(f"{key} with unmodelled function item {f.name}")
+            self.call_closure(st, f, [inner], cell, ret, post=wrap)
+            out.append(st)
+        return out
+
+    def poll_map_err(self, st, fr, dest, x, f, dest_ty, ret):
+        from .contracts import payload, payload_type
+        out = []
+        c_pending = self.variant_is(st, x, "Pending")
+        inner = payload(self, x, "Ready", 0, "Result<?, ?>")
+        c_ok = z3.And(self.variant_is(st, x, "Ready"), self.variant_is(st, inner, "Ok"))
+        c_err = z3.And(self.variant_is(st, x, "Ready"), self.variant_is(st, inner, "Err"))
+        inner_ty = payload_type(dest_ty, "Ready") or "Result<?, ?>"
+        for cond, kind in ((c_pending, "pending"), (c_ok, "ok")):
+            if self.feasible(st, cond):
+                s2 = st.clone()
+                s2.pc.append(cond)
+                f2 = s2.frames[-1]
+                xx = self.reread_arg0(s2, f2)
+                if kind == "pending":
+                    val = self.make_enum(dest_ty, "Pending")
+                else:
+                    okv = payload(self, payload(self, xx, "Ready"), "Ok")
+                    val = self.make_enum(dest_ty, "Ready", [self.make_enum(inner_ty, "Ok", [okv])])
+                self.write_place(s2, f2, dest, val)
+                self.enter(s2, f2, ret)
+                out.append(s2)
+        if self.feasible(st, c_err):
+            st.pc.append(c_err)
+            e = payload(self, inner, "Err")
+            cell, _ = self.resolve(st, fr, dest, for_write=True)
+            wrap = lambda ex, s, v: ex.make_enum(dest_ty, "Ready", [ex.make_enum(inner_ty, "Err", [v])])
+            self.call_closure(st, f, [e], cell, ret, post=wrap)
+            out.append(st)
+        return out
+
+    def operand_values_again(self, st, fr):
+        return None
+
+    def reread_arg0(self, st, fr):
+        """First argument of the call terminating the current block, re-read in `st`."""
+        t = parse_terminator(fr.fn.blocks[fr.block].term)
+        return self.operand(st, fr, t[3][0])
 
     def place_type(self, fr, place):
         ty = fr.fn.locals.get(place.local, "?")
@@ -548,6 +656,8 @@ class Executor:
         if kind == "return":
             ret = fr.locals.get(0)
             val = ret.v if ret is not None else UNIT
+            if fr.post is not None:
+                val = fr.post(self, st, val)
             st.frames.pop()
             if not st.frames:
                 on_done(st, val)
@@ -662,6 +772,53 @@ class Executor:
         self.write_place(st, fr, dest, val)
 
     named_consts = {}
+
+    def eval_const_item(self, st, suffix):
+        """Evaluate a `const ...::promoted[N]` item of the function currently executing."""
+        cur = st.frames[-1].fn.name if st.frames else ""
+        hits = [n for n in self.fns if n.startswith("const:") and n.endswith(suffix)]
+        if len(hits) > 1:
+            # same method name in several impls: prefer the one from the same impl block as the current function
+            pref = cur.rsplit("::", 1)[0]
+            best = [n for n in hits if n[len("const:"):].startswith(pref)]
+            hits = best or hits
+        if len(hits) != 1:
+            raise Inconclusive(f"promoted constant {suffix}: {len(hits)} candidates")
+        fn = self.fns[hits[0]]
+        sub = State()
+        fr = Frame(fn, None)
+        sub.frames.append(fr)
+        out = []
+        saved = (self.max_paths,)
+        self.run(sub, lambda s, v: out.append(v))
+        if len(out) != 1:
+            raise Inconclusive(f"promoted constant {suffix} did not evaluate to one value")
+        return out[0]
+
+    def call_closure(self, st, closure, args, ret_cell, ret_to, post=None):
+        """Push a frame for the MIR body of `closure` (an Obj whose type is `{closure@file:line:col: ..}`)."""
+        ty = closure.ty if isinstance(closure, Obj) else (closure.name if isinstance(closure, FnItem) else None)
+        if ty is None:
+            raise Inconclusive("call of a non-closure value " + repr(closure))
+        m = re.search(r"\{closure@([^}]*)\}", ty)
+        if not m:
+            raise Inconclusive("cannot resolve closure type " + ty)
+        tag = "{closure@" + m.group(1) + "}"
+        hits = [f for n, f in self.fns.items() if "{closure#" in n and f.args and tag in f.args[0][1]]
+        if len(hits) != 1:
+            raise Inconclusive(f"closure {tag}: {len(hits)} MIR bodies")
+        fn = hits[0]
+        nf = Frame(fn, ret_cell, ret_to)
+        nf.post = post
+        first = fn.args[0][1].strip()
+        self_arg = closure
+        if first.startswith("&"):
+            self_arg = Ref(Cell(closure))
+        vals = [self_arg] + list(args)
+        for (idx, _), v in zip(fn.args, vals):
+            nf.locals[idx] = Cell(v)
+        self.functions_used.add(fn.name)
+        st.frames.append(nf)
 
 
 def _add_ovf(a, b):
